@@ -457,7 +457,7 @@ def replay_scheduler(rep):
 def run(tier, seed):
   r = harness.Run(PROP, "model_checking", tier, seed)
   rng = np.random.RandomState(seed)
-  cfgs = QCONFIGS + QCONFIGS_THOROUGH if tier == "thorough" else [QCONFIGS[i] for i in (0, 1, 3, 6, 8, 9)]
+  cfgs = QCONFIGS + QCONFIGS_THOROUGH if tier == "thorough" else [QCONFIGS[i] for i in (0, 1, 3, 4, 6, 8, 9, 11)]
   for i, (cls, kw) in enumerate(cfgs):
     try:
       one_quantizer(r, cls, kw, rng, i)
